@@ -474,4 +474,6 @@ func vh_C17_L5_scheduler_instances_are_independent() {
 func vh_C17_L1_framing_follows_init_ack() { vh_C04_L6_agreement_follows_init_ack() }
 
 // C17.L1f: the supported-extensions list is found behind unknown parameters (= C12.L4).
-func vh_C17_L1_extensions_found_behind_unknown_parameters() { vh_C12_L4_init_unknown_parameter_is_skipped() }
+func vh_C17_L1_extensions_found_behind_unknown_parameters() {
+	vh_C12_L4_init_unknown_parameter_is_skipped()
+}
